@@ -15,6 +15,8 @@ Rewrite rules, applied mechanically to the macro's transcriber body on every run
   R7  `E - 1` (E a parameter or an index read) -> `dec(E)?`     (0 - 1: panic in debug, wrap + failed bounds check in release)
   R8  `.clone()` on element values    -> dropped                (elements are modelled as u64: the kernels only clone them)
   R9  `M.column_mut(C)[R]` / `M.row_mut(R)[C]` (a view subscripted once) -> `M[(R, C)]`
+  R10 `let mut v = M.column_mut(C);` ... `v[R]` -> `let v_ix_ = M.col_ok(C)?;` ... `M[(R, v_ix_)]`   (the view's own bounds check kept)
+  R11 `for &x in I.iter()` / `for (i, &x) in I.iter().enumerate()` over an index container -> index loop reading `I[k]`
 The transcribed function returns `Some(())` when the real kernel returns normally and `None` when it panics.
 """
 import os, re, sys
@@ -151,6 +153,35 @@ def rewrite_body(body, params, scalars=()):
     # `*X` : a read of a scalar behind the pointer becomes the parameter; a write `*X = ..` to a scalar output stays a write
     b = re.sub(r"(?<![\w)\]])\*\s*(%s)\b(?!\s*=(?!=))" % names, r"\1", b)
     b = re.sub(r"\(\s*(%s)\s*\)" % names, r"\1", b)
+    # R11: iterator loops over an index container -> index loops
+    #   `for &V in (X).iter() {` / `for V in X.iter() {`            -> `for k_V in 0..X.len() { let V = X[k_V];`
+    #   `for (I, &V) in (X).iter().enumerate() {` (also `(&X)`)     -> `for I in 0..X.len() { let V = X[I];`
+    def _iter_loops(b):
+        b = re.sub(r"for\s*\(\s*(\w+)\s*,\s*&?\s*(\w+)\s*\)\s*in\s*\(?\s*&?\s*(%s)\s*\)?\s*\.iter\(\)\s*\.enumerate\(\)\s*\{" % names,
+                   r"for \1 in 0..\3.len() { let \2 = \3[\1];", b)
+        b = re.sub(r"for\s+&?\s*(\w+)\s+in\s*\(?\s*&?\s*(%s)\s*\)?\s*\.iter\(\)\s*\{" % names,
+                   r"for k_\1 in 0..\2.len() { let \1 = \2[k_\1];", b)
+        return b
+    b = _iter_loops(b)
+    # R10: `let mut C = (M).column_mut(E);` ... `C[X]`  ->  `let C_ix_ = M.col_ok(E)?;` ... `M[(X, C_ix_)]`   (row_mut likewise)
+    def _view_alias(b):
+        while True:
+            m = re.search(r"let\s+(?:mut\s+)?(\w+)\s*=\s*\(?\s*(%s)\s*\)?\s*\.\s*(column_mut|row_mut)\(" % names, b)
+            if not m:
+                return b
+            e = _match_paren(b, m.end() - 1)
+            arg = b[m.end():e - 1].strip()
+            semi = b.index(";", e)
+            v, M, kind = m.group(1), m.group(2), m.group(3)
+            chk = "col_ok" if kind == "column_mut" else "row_ok"
+            head = b[:m.start()] + "let %s_ix_ = %s.%s(%s)?;" % (v, M, chk, arg)
+            rest = b[semi + 1:]
+            def sub(mm):
+                inner = mm.group(1)
+                return "%s[(%s, %s_ix_)]" % (M, inner, v) if kind == "column_mut" else "%s[(%s_ix_, %s)]" % (M, v, inner)
+            rest = re.sub(r"\b%s\s*\[([^\[\]]*)\]" % re.escape(v), sub, rest)
+            b = head + rest
+    b = _view_alias(b)
     # R3 aliases
     aliases = []
     def _alias(mm):
